@@ -522,7 +522,7 @@ pub fn structured(ctx: &Ctx, entries: &[String], seed: u64, nbases: usize, max_p
                         run_case(&b, &json!({"stage":"structured","mutation":d,"item":gi,"byte":sub}), rep, trace, journal);
                         // size / count fields at their extremes also with the datagrams of a reply in reverse order (a check
                         // that is made on the first datagram received must not depend on which one that is)
-                        if matches!(op, "set_num" | "set_lit_byte" | "set_textnum") && b.conns.iter().any(|(_, bs)| bs.iter().any(|x| x.len() > 1)) {
+                        if matches!(op, "set_num" | "set_lit_byte" | "set_textnum" | "set_txt_index") && b.conns.iter().any(|(_, bs)| bs.iter().any(|x| x.len() > 1)) {
                             let mut b2 = b.clone();
                             for (_, bs) in &mut b2.conns {
                                 for x in bs.iter_mut() {
